@@ -226,11 +226,8 @@ func (c *connection) send(conn net.Conn, connDone chan bool) {
 			TLOG.Errorf("send request retry: %d, error: %v", m.retry, err)
 			c.client.sendFailQueue <- m
 			c.close(conn)
-			if !errors.Is(err, net.ErrClosed) {
-				return
-			}
-
-			// connection closed, try to reconnect once
+			// the request is queued again and needs a connection: try to reconnect once,
+			// whatever the write error was (closed locally, reset or closed by the peer)
 			if err = c.ReConnect(); err != nil {
 				TLOG.Errorf("send request reconnect error: %v", err)
 			}
